@@ -3,6 +3,7 @@ package spine
 import (
 	"fmt"
 
+	"github.com/enbility/ship-go/logging"
 	"github.com/enbility/spine-go/api"
 	"github.com/enbility/spine-go/model"
 )
@@ -300,7 +301,8 @@ func CreateFunctionData[F any](featureType model.FeatureTypeType) []F {
 	}
 
 	if len(result) == 0 {
-		panic(fmt.Errorf("unknown featureType '%s'", featureType))
+		// an unknown feature type may be announced by a remote device, it has no known functions
+		logging.Log().Errorf("unknown featureType '%s'", featureType)
 	}
 
 	return result
